@@ -415,6 +415,13 @@ def gen_hexital(rng, size, ha_ok=False, life_ok=False, programs=True, enc=None):
         member_names = ["SMA_5"]
     # Hexital-level gap filling also without an own timeframe: it then applies to the members' managers
     hfill = rng.random() < 0.3 and (htf is not None or any(m.get("tf") for m in members))
+    if hfill:
+        # keep the filled series small: a stream spanning tens of thousands of buckets of the finest collapsing timeframe is the same
+        # scenario as one spanning a few hundred, at a hundred times the cost
+        stamps = [t[0] for t in stream if t[0] is not None]
+        finest = min([gen.tf_seconds(x) for x in [htf] + [m.get("tf") for m in members] if x] or [1])
+        if stamps and (max(stamps) - min(stamps)) // finest > 2000:
+            hfill = False
     if programs and rng.random() < 0.01:
         lines.append("hmember form=bad")   # InvalidIndicator from the constructor (after the default manager was built)
     lines.append(f"hnew tf={htf or '-'}{_tfenum(rng, htf)} fill={int(hfill)} ha={int(ha)} life={'-' if life is None else life} "
@@ -732,6 +739,7 @@ def _worker(args):
     runner = impl.ImplRunner()
     for (i, lines, meta), mo in zip(cases, model_out):
         runner.reset()
+        _t0 = __import__("time").time()
         try:
             io = runner.run(lines)
         except impl.Diverged:  # a watchdog that fired outside ImplRunner._try: never let it kill the pool worker (the pool would wait forever)
@@ -740,6 +748,8 @@ def _worker(args):
             if os.environ.get("HX_STRICT"):
                 raise
             io = [f"harness-crash {type(e).__name__}: {str(e)[:200]}"]
+        if os.environ.get("HX_SLOW") and __import__("time").time() - _t0 > float(os.environ["HX_SLOW"]):
+            print(f"SLOW tie case={i} {__import__('time').time() - _t0:.1f}s lines={len(lines)} out={len(io)} meta={meta} first={[l[:120] for l in lines[:3]]}", file=__import__("sys").stderr)
         a = _cut([vf(x) for x in io])
         b = _cut([vf(x) for x in mo])
         diff = None
